@@ -277,6 +277,16 @@ func c08hostileString(r *vf.Rand, i int) (string, string) {
 		}
 		return s, "pubkey-hex"
 	case 4: // Base58Check with a valid checksum over arbitrary versions / lengths
+		if r.Chance(1, 8) {
+			// fewer than the 5 bytes (version + checksum) a Base58Check string needs,
+			// but with a "checksum" that verifies over the shorter prefix
+			d := r.Bytes(r.Intn(4))
+			if r.Bool() {
+				d = d[:0]
+			}
+			ck := ref.Sha256d(d)
+			return strings.Repeat("1", r.Intn(3)) + ref.B58Encode(append(d, ck[:4]...)), "base58check-short-valid-checksum"
+		}
 		n := r.Intn(81)
 		switch r.Intn(4) {
 		case 0:
